@@ -3,6 +3,7 @@ package main
 import (
 	"fmt"
 	"io"
+	"net"
 	"os"
 	"path/filepath"
 	"strconv"
@@ -31,6 +32,10 @@ type c08Scenario struct {
 	// HTTP: the daemon runs with -healthz -metrics (HTTP server on :2112 and two
 	// more goroutines in the worker group); such scenarios run one at a time.
 	HTTP bool
+	// StuckScraper: with the HTTP server on, a client has pipelined many
+	// /metrics requests and never reads the answers: its handler is parked in a
+	// socket write when the cause strikes.
+	StuckScraper bool
 }
 
 var c08Causes = []string{
@@ -217,6 +222,16 @@ func c08Run(r *vlib.Run, sc c08Scenario, idx int) (evaluated bool) {
 	if wa != nil {
 		defer wa.Close()
 	}
+	if sc.StuckScraper {
+		conn := stuckScraper(d)
+		if conn == nil {
+			r.Inconclusive(label + ": could not connect a scraper to :2112 (port busy or server not up)")
+			return false
+		}
+		defer conn.Close()
+		sig += ":stuck-scraper"
+		label += "/stuck-scraper"
+	}
 	// let the workers reach their steady state (blocked reading the pipes)
 	// before the cause strikes; workload, not verdict
 	time.Sleep(200 * time.Millisecond)
@@ -379,6 +394,9 @@ func checkC08(r *vlib.Run) int {
 	for _, c := range []string{"SIGTERM", "SIGINT", "sshd-pipe-eof", "audit-pipe-eof", "malformed-audit-line", "write-failure-on-sshd-line"} {
 		scs = append(scs, c08Scenario{Cause: c, HTTP: true})
 	}
+	for _, c := range []string{"SIGTERM", "sshd-pipe-eof", "malformed-audit-line"} {
+		scs = append(scs, c08Scenario{Cause: c, HTTP: true, StuckScraper: true})
+	}
 	var idle, sat []int
 	for i, s := range scs {
 		if s.Saturated || s.HTTP {
@@ -395,7 +413,7 @@ func checkC08(r *vlib.Run) int {
 	for i, ok := range done {
 		if ok {
 			evals++
-			dist.Add(fmt.Sprintf("%s|%v|%v|%v|%v", scs[i].Cause, scs[i].Saturated, scs[i].NoWriter, scs[i].Debug, scs[i].HTTP))
+			dist.Add(fmt.Sprintf("%s|%v|%v|%v|%v|%v", scs[i].Cause, scs[i].Saturated, scs[i].NoWriter, scs[i].Debug, scs[i].HTTP, scs[i].StuckScraper))
 		}
 	}
 	r.Set("causes", c08Causes)
@@ -404,7 +422,7 @@ func checkC08(r *vlib.Run) int {
 	r.Assumptions = []string{"'saturated' is observed: the pumping writer's write(2) hit EAGAIN at least five times before the fault is injected, otherwise the scenario is inconclusive",
 		"'does not exit' is a violation only if the SIGQUIT dump shows main parked in errgroup.Wait and a worker parked; otherwise inconclusive",
 		"signals may end the process with any status; failures must give a non-zero status"}
-	return r.Finish(evals, dist.Len(), "built daemon x failure cause {sshd pipe EOF, audit pipe EOF, malformed audit line, event write failure via /dev/full, sshd/audit path is a regular file / missing / a directory, SIGTERM, SIGINT} x load {idle with writers attached, idle with the other pipe still waiting for its writer, saturated by a pumping writer} x log level {error, debug}, and six causes with the HTTP health/metrics server enabled; thorough: x3 and with the -race build; distinct = (cause, load) pairs evaluated")
+	return r.Finish(evals, dist.Len(), "built daemon x failure cause {sshd pipe EOF, audit pipe EOF, malformed audit line, event write failure via /dev/full, sshd/audit path is a regular file / missing / a directory, SIGTERM, SIGINT} x load {idle with writers attached, idle with the other pipe still waiting for its writer, saturated by a pumping writer} x log level {error, debug}, six causes with the HTTP health/metrics server enabled and three of them with a scrape client that never reads its answers; thorough: x3 and with the -race build; distinct = (cause, load) pairs evaluated")
 }
 
 func lastLineOf(s string) string {
@@ -413,4 +431,36 @@ func lastLineOf(s string) string {
 		return s[i+1:]
 	}
 	return s
+}
+
+// stuckScraper connects to the daemon's HTTP server, pipelines a few thousand
+// /metrics requests and never reads a byte: once the socket buffers are full
+// the server's handler is parked in a write.
+func stuckScraper(d *daemon) net.Conn {
+	var conn net.Conn
+	var err error
+	deadline := time.Now().Add(20 * time.Second)
+	for {
+		conn, err = net.DialTimeout("tcp", "127.0.0.1:2112", time.Second)
+		if err == nil {
+			break
+		}
+		if d.hasExited() || time.Now().After(deadline) {
+			return nil
+		}
+		time.Sleep(5 * time.Millisecond)
+	}
+	if tc, ok := conn.(*net.TCPConn); ok {
+		_ = tc.SetReadBuffer(4096) // a tiny receive window: the server's answers back up quickly
+	}
+	req := []byte(strings.Repeat("GET /metrics HTTP/1.1\r\nHost: localhost\r\n\r\n", 100))
+	for k := 0; k < 3000; k++ { // up to 300000 requests
+		_ = conn.SetWriteDeadline(time.Now().Add(1500 * time.Millisecond))
+		if _, err := conn.Write(req); err != nil {
+			// our own send buffer is full as well: the server has stopped reading
+			// requests because its handler is parked writing an answer
+			return conn
+		}
+	}
+	return conn
 }
